@@ -68,6 +68,13 @@ var propInfo = map[string]struct {
 			"kcmp is the name given to the result of compare (a definitional clause, admissible because compare reads no memory)",
 			"that a lone `order by key asc` may be elided rests on C01 (scan order), not yet claimed",
 		}},
+	"C09": {"proof",
+		"The accumulators count, sum, avg, min and max are proved to be left folds in scan order: Update is exactly one fold step on convertToNumber of the argument's value for the pair (state unchanged when the argument fails to evaluate), Complete reads the documented result out of the state (integer sum unless a float was seen; avg = sum / count as floats; min / max by the integer or float reading), Clone yields the initial state in a fresh object. convertToNumber is evaluated in place (pure).",
+		[]string{
+			"NOT yet covered: the grouping itself (AggregatePlan.prepare/prepareBatch, getAggrKey / batchGetAggrKeys, createAggrRow, next/batch rendering), group_concat, json_arrayagg and quantile; the group key is still a plain concatenation of the rendered values, so distinct tuples such as ('a','bc') and ('ab','c') share a group (defect D16 of DESIGN.md section 6: confirmed on the real code, not yet repaired and not yet detected by a registered obligation)",
+			"A-EVAL: the value of the aggregate's argument is evalv of the interface contract of Expression.Execute",
+			"floats are uninterpreted (fadd / fdiv / flt): the fold order is the code's, no IEEE fact is used; int64 is mathematical (A-INT)",
+		}},
 }
 
 func propLevel(p string) (string, bool) {
